@@ -22,9 +22,11 @@ PROPERTY = "C08"
 TRACE = "T_Detection"
 ENUM = {
     "quick": [dict(module="MC_Detection", cfg="MC_Detection_quick.cfg", workers=12),
-              dict(module="MC_Detection", cfg="MC_Detection_clips.cfg", workers=4)],
+              dict(module="MC_Detection", cfg="MC_Detection_clips.cfg", workers=4),
+              dict(module="MC_Detection", cfg="MC_Detection_extra.cfg", workers=4)],
     # coverage (an action never taken = failure) on the small config only: TLC's interim coverage reports of a long run contain zeros
     "thorough": [dict(module="MC_Detection", cfg="MC_Detection_clips.cfg", workers=4, coverage=True),
+                 dict(module="MC_Detection", cfg="MC_Detection_extra.cfg", workers=4),
                  dict(module="MC_Detection", cfg="MC_Detection_thorough.cfg", workers=16),
                  dict(module="MC_Detection", cfg="MC_Detection_thorough_rich.cfg", workers=16)],
 }
@@ -60,6 +62,15 @@ def _vocab(n):
     return [data.Tag(key="species", value=f"c{i}") for i in range(1, n + 1)]
 
 
+# term cases (Detection.tla, tag table): T1 and T2 are different terms with the same label, T1 and T3 different terms with
+# the same name; tag ids 1..4 = (T1, x) (T2, x) (T3, x) (T1, y)
+_T1 = data.Term(name="v:species", label="species", definition="species named by the annotator")
+_T2 = data.Term(name="w:species", label="species", definition="species group of the classifier")
+_T3 = data.Term(name="v:species", label="taxon", definition="another term under the same name")
+_TAG = {1: data.Tag(term=_T1, value="x"), 2: data.Tag(term=_T2, value="x"), 3: data.Tag(term=_T3, value="x"),
+        4: data.Tag(term=_T1, value="y")}
+
+
 def _uid(*k):
     n = 0
     for x in k:
@@ -69,7 +80,7 @@ def _uid(*k):
 
 def _build(case, tu, geom_of):
     """-> (clip_predictions, clip_annotations, tags, events) ; events[clip id] = (pred geoms, ann geoms)."""
-    tags = _vocab(case["vocab"])
+    tags = [_TAG[t] for t in case["voc"]] if "voc" in case else _vocab(case["vocab"])
     preds, anns, geoms = {}, {}, {}
     for c in case["clips"]:
         cid = c["id"]
@@ -79,7 +90,10 @@ def _build(case, tu, geom_of):
         for j, a in enumerate(c["anns"]):
             g = geom_of(cid, "a", j, a, tu)
             ag.append(g)
-            t = [tags[a["cls"] - 1]] if 1 <= a["cls"] <= len(tags) else ([_OOV] if a["cls"] == 9 else [])
+            if "tags" in a:
+                t = [_TAG[i] for i in a["tags"]]
+            else:
+                t = [tags[a["cls"] - 1]] if 1 <= a["cls"] <= len(tags) else ([_OOV] if a["cls"] == 9 else [])
             ses.append(data.SoundEventAnnotation(
                 uuid=_uid(2, cid, j), tags=t,
                 sound_event=data.SoundEvent(uuid=_uid(3, cid, j), recording=_REC, geometry=g)))
@@ -88,7 +102,10 @@ def _build(case, tu, geom_of):
         for i, p in enumerate(c["preds"]):
             g = geom_of(cid, "p", i, p, tu)
             pg.append(g)
-            pt = [data.PredictedTag(tag=tags[k], score=q / 4) for k, q in enumerate(p["sc"]) if q > 0 and k < len(tags)]
+            if "pt" in p:
+                pt = [data.PredictedTag(tag=_TAG[i], score=q / 4) for i, q in p["pt"]]
+            else:
+                pt = [data.PredictedTag(tag=tags[k], score=q / 4) for k, q in enumerate(p["sc"]) if q > 0 and k < len(tags)]
             ses.append(data.SoundEventPrediction(
                 uuid=_uid(5, cid, i), score=0.5, tags=pt,
                 sound_event=data.SoundEvent(uuid=_uid(6, cid, i), recording=_REC, geometry=g)))
